@@ -248,6 +248,8 @@ def classify(lang, t, lit):
             return "K17-rustIntForFloat"
         if lang == "java" and t == "float32":
             return "K17-javaCarrier"
+        if lang == "java" and f != "fraction" and abs(float(lit)) > 2 ** 31 - 1:
+            return "K17-javaCarrier"        # a whole-number literal beyond int is not a valid Java literal without suffix
         if f == "leading-zero" and lang == "java":
             return "K17-octal"
         return None
@@ -335,7 +337,9 @@ def run(ctx, prop):
     consts = []
     for t in list(INTS) + list(FLOATS):
         lits = int_literals(t, ctx.rng) if t in INTS else ["0.0", "1.5", "-2.25", "3", "0x10", "100.125", "007.5",
-                                                            "0.1", "3.141592653589793", "16777217.0", "-0.000001", "1234567.890625"]
+                                                            "0.1", "3.141592653589793", "16777217.0", "-0.000001", "1234567.890625",
+                                                            "9223372036854775808", "18446744073709551616", "-9223372036854775809",
+                                                            "340282346638528859811704183484516925440"]
         if t in INTS:
             lits += [x for x in ("5", "1000", "-2", "0x7B") if rng_of(t)[0] <= math_value(x) <= rng_of(t)[1] and x not in lits]
         pick = lits if ctx.tier == "thorough" else ctx.rng.sample(lits, min(len(lits), 7))
